@@ -64,6 +64,9 @@ var f12 = []gstmt{
 	{Text: "(* -> *)[*].style.stroke: red", Kind: "eattr", SrcPat: "*", DstPat: "*", Body: &gbody{"style.stroke", "red"}},
 	{Text: "(a -> *)[*]: q", Kind: "eattr", SrcPat: "a", DstPat: "*", Body: &gbody{"", "q"}},
 	{Text: "layers: {l: {z}}", Kind: "board"},
+	{Text: "layers: {l: {a -> ab}; m: {a -> ab}}", Kind: "board2"},
+	{Text: "(a -> ***)[*].style.stroke: red", Kind: "eattr", SrcPat: "a", DstPat: "***", Body: &gbody{"style.stroke", "red"}},
+	{Text: "(*** -> ***)[*]: t", Kind: "eattr", SrcPat: "***", DstPat: "***", Body: &gbody{"", "t"}},
 	{Text: "a: null", Kind: "del", Path: P("a")},
 	{Text: "vars: {v: 1}", Kind: "vars"},
 	{Text: "d: ${v}", Kind: "obj", Path: P("d"), Body: &gbody{"", "${v}"}},
@@ -117,6 +120,8 @@ type gstate struct {
 	unsettled string
 	filterSet bool // a filtered glob is remembered
 	hasVars   bool
+	hasBoard2 bool
+	b2        [2][]string // statements inside layers l and m of the two-board statement
 }
 
 func keyOf(p []string) string { return strings.ToLower(strings.Join(p, "\x1f")) }
@@ -313,6 +318,11 @@ func expand12(lines []string) (twin string, unsettled string, herr string) {
 			if st.Pat[0] == "***" && s.hasBoard {
 				s.board = append(s.board, "z.style.fill: red")
 			}
+			if st.Pat[0] == "***" && s.hasBoard2 {
+				for i := range s.b2 {
+					s.b2[i] = append(s.b2[i], "a"+bodySuffix(*st.Body), "ab"+bodySuffix(*st.Body))
+				}
+			}
 			for _, o := range append([][]string{}, s.objs...) {
 				if globMatches(st, o) && s.filterOK(st.Filter, o) {
 					s.setAttr(o, *st.Body)
@@ -347,6 +357,9 @@ func expand12(lines []string) (twin string, unsettled string, herr string) {
 			}
 			s.eglobs = append(s.eglobs, st)
 		case "eattr":
+			if s.hasBoard2 && strings.Contains(st.SrcPat+st.DstPat, "***") {
+				return "", "a board-wide connection glob written after the board block: the statement does not say whether it reaches the boards", ""
+			}
 			for _, e := range s.edges {
 				if len(e.src) == 1 && len(e.dst) == 1 && matchName(st.SrcPat, e.src[0]) && matchName(st.DstPat, e.dst[0]) {
 					s.edgeAttr(e.src, e.dst, e.idx, *st.Body)
@@ -378,7 +391,28 @@ func expand12(lines []string) (twin string, unsettled string, herr string) {
 			}
 			s.edges = ke
 			s.out = append(s.out, l)
+		case "board2":
+			if s.hasBoard2 || s.hasBoard {
+				return "", "two board statements (merging boards is C15's business)", ""
+			}
+			s.hasBoard2 = true
+			for i := range s.b2 {
+				s.b2[i] = []string{"a -> ab"}
+				for _, g := range s.globs {
+					if g.Pat[0] == "***" { // *** attribute globs reach the boards' objects
+						s.b2[i] = append(s.b2[i], "a"+bodySuffix(*g.Body), "ab"+bodySuffix(*g.Body))
+					}
+				}
+				for _, ea := range s.eattrs {
+					if strings.Contains(ea.SrcPat+ea.DstPat, "***") && matchName(ea.SrcPat, "a") && matchName(ea.DstPat, "ab") {
+						s.b2[i] = append(s.b2[i], boardEdgeAttr(*ea.Body))
+					}
+				}
+			}
 		case "board":
+			if s.hasBoard2 {
+				return "", "two board statements (merging boards is C15's business)", ""
+			}
 			if s.hasBoard {
 				return "", "", "" // second identical board statement: merge is C15's business; skip
 			}
@@ -395,8 +429,20 @@ func expand12(lines []string) (twin string, unsettled string, herr string) {
 	if s.hasBoard {
 		twin += "\nlayers: {l: {" + strings.Join(s.board, "; ") + "}}"
 	}
+	if s.hasBoard2 {
+		twin += "\nlayers: {l: {" + strings.Join(s.b2[0], "; ") + "}; m: {" + strings.Join(s.b2[1], "; ") + "}}"
+	}
 	return twin, "", ""
 }
+
+func bodySuffix(b gbody) string {
+	if b.key == "" {
+		return ": " + b.val
+	}
+	return "." + b.key + ": " + b.val
+}
+
+func boardEdgeAttr(b gbody) string { return "(a -> ab)[0]" + bodySuffix(b) }
 
 func c12Mech(lines []string) string {
 	// (1) suffix pattern next to a name that contains but does not end in the literal
@@ -489,7 +535,7 @@ func c12Oracle(in string) eng.Res {
 	lines := strings.Split(in, "\n")
 	boards := 0
 	for _, l := range lines {
-		if l == "layers: {l: {z}}" {
+		if l == "layers: {l: {z}}" || l == "layers: {l: {a -> ab}; m: {a -> ab}}" {
 			boards++
 		}
 	}
